@@ -92,8 +92,8 @@ CHECKS["C15"] = {
     "units": [
         unit("./internal", CORE_FILES, "^Harness_C15_Reverse_n[1-4]$", QT, flags={"labels": "^C15:"}),
         unit("./internal", CORE_FILES, "^Harness_C15_Reverse_n[56]$", T, flags={"labels": "^C15:"}),
-        unit("./internal/controller/ledger", ["ctrl/dbmodel.go", "ctrl/lib.go", "ctrl/c25.go", "ctrl/ops.go", "ctrl/ops_gen.go", "ctrl/revert.go", "ctrl/revert_gen.go", "ctrl/refreplay.go", "ctrl/events.go", "ctrl/events_gen.go", "ctrl/c36.go", "ctrl/c28.go", "ctrl/schema.go", "ctrl/conc.go"], "^Harness_REVC_", QT, flags={"labels": "^C15:", "max-decisions": 4000}, reach=["end"]),
-        unit("./internal/controller/ledger", ["ctrl/dbmodel.go", "ctrl/lib.go", "ctrl/c25.go", "ctrl/ops.go", "ctrl/ops_gen.go", "ctrl/revert.go", "ctrl/revert_gen.go", "ctrl/refreplay.go", "ctrl/events.go", "ctrl/events_gen.go", "ctrl/c36.go", "ctrl/c28.go", "ctrl/schema.go", "ctrl/conc.go"], "^Harness_REVS_", QT, flags={"labels": "^C15:", "max-decisions": 4000}, reach=["end"]),
+        unit("./internal/controller/ledger", ["ctrl/dbmodel.go", "ctrl/lib.go", "ctrl/c25.go", "ctrl/ops.go", "ctrl/ops_gen.go", "ctrl/revert.go", "ctrl/revert_gen.go", "ctrl/refreplay.go", "ctrl/events.go", "ctrl/events_gen.go", "ctrl/c36.go", "ctrl/c28.go", "ctrl/schema.go", "ctrl/conc.go", "ctrl/c37.go"], "^Harness_REVC_", QT, flags={"labels": "^C15:", "max-decisions": 4000}, reach=["end"]),
+        unit("./internal/controller/ledger", ["ctrl/dbmodel.go", "ctrl/lib.go", "ctrl/c25.go", "ctrl/ops.go", "ctrl/ops_gen.go", "ctrl/revert.go", "ctrl/revert_gen.go", "ctrl/refreplay.go", "ctrl/events.go", "ctrl/events_gen.go", "ctrl/c36.go", "ctrl/c28.go", "ctrl/schema.go", "ctrl/conc.go", "ctrl/c37.go"], "^Harness_REVS_", QT, flags={"labels": "^C15:", "max-decisions": 4000}, reach=["end"]),
     ],
 }
 
@@ -115,7 +115,7 @@ CHECKS["C03"] = {
     ],
 }
 
-CTRL_FILES = ["ctrl/dbmodel.go", "ctrl/lib.go", "ctrl/c25.go", "ctrl/ops.go", "ctrl/ops_gen.go", "ctrl/revert.go", "ctrl/revert_gen.go", "ctrl/refreplay.go", "ctrl/events.go", "ctrl/events_gen.go", "ctrl/c36.go", "ctrl/c28.go", "ctrl/schema.go", "ctrl/conc.go"]
+CTRL_FILES = ["ctrl/dbmodel.go", "ctrl/lib.go", "ctrl/c25.go", "ctrl/ops.go", "ctrl/ops_gen.go", "ctrl/revert.go", "ctrl/revert_gen.go", "ctrl/refreplay.go", "ctrl/events.go", "ctrl/events_gen.go", "ctrl/c36.go", "ctrl/c28.go", "ctrl/schema.go", "ctrl/conc.go", "ctrl/c37.go"]
 CTRL_PKG = "./internal/controller/ledger"
 DBMODEL_ASSUME = [
     "dbmodel (harness/ctrl/dbmodel.go) stands for the SQL store below the controller's Store interface: tables as Go values, transactional write sets applied on Commit and dropped on Rollback, autocommit on a non-transactional handle, unique keys (ledger,id), (ledger,reference), (ledger,idempotency_key), (ledger,address), non-transactional sequences, 'a failed statement aborts the transaction', transaction_date() constant inside a transaction. It is trusted, not verified (no PostgreSQL in the sandbox)",
@@ -434,6 +434,15 @@ CHECKS["C21"] = {
     "technique": "symbolic execution (gosym, z3) of the real cursor code over a page specification + bounded symbolic evaluation (z3) of the captured paginated SQL against that specification",
     "units": [unit("./internal/storage/common", ["common/c21.go"], "^Harness_C21_(col|off)_", QT, swaps=C21_SWAPS, flags={"labels": "^(C21:|no-panic)", "max-decisions": 4000}, reach=["end"]),
               py_unit("c21_pages", "c21-pages", [])],
+}
+
+CHECKS["C37"] = {
+    "level": "other",
+    "explanation": "The real DefaultController.RunQuery (GetSchema, queries.ResolveFilterTemplate with resolveFilter / resolveValue / ReplaceVariables / ParseTemplate, QueryTemplateParams.Overwrite and UnmarshalJSON, templateParamsToQuery, runQueryFromCursor with the real UnmarshalCursor) runs on the store model, after the template went through the real InsertSchema validation; the store model's Paginate methods record the query they are handed. The expected query is built independently from the rule of the property: the filter is the template body with the variables substituted (go-libs query constructors; compared through the builders' own JSON encoding), each parameter is the request's if given, else the template's if given, else the default, capped at the maximum page size. Variable values are symbolic (strings, unbounded integers as json.Number, booleans), declared defaults are used when the call gives none; 8 x 8 shapes of (template params, request params): absent, {}, page size only, sort only, end time only, expand only, sort column without order, everything; page sizes at 1, 20, 99, 100, 101, 1000 against a maximum of 100. A cursor produced for a template query (symbolic pagination id / bottom / reverse / order, PIT, expand, filter with a symbolic value) handed back to RunQuery reaches the store as the same column query. That equal queries return equal rows is the store's determinism (C20 / C21 decide what a query returns).",
+    "bounds": {"quick": "9 template bodies over transactions, accounts, logs ($match/$gte/$lt/$gt/$in/$not/$and/$or/$exists, string templates 'ref-${r}', 'users:${u}:main', numeric, boolean and date variables, a default value, no body) x 64 parameter shapes; volumes with 3 x 3 option shapes (groupBy, insertionDate); one cursor continuation", "thorough": "same"},
+    "outside": "the HTTP decoding of the RunQuery request; float64 variable values (the JSON decoder of the API uses json.Number); rows returned by the store (see C20, C21); template validation errors (only well-formed templates are run); dates with a zone offset (time.LoadLocation is outside the executor)",
+    "assumptions": COMMON_ASSUME + DBMODEL_ASSUME,
+    "units": [unit(CTRL_PKG, CTRL_FILES, "^Harness_C37_", QT, flags={"labels": "^(C37:|no-panic)", "max-decisions": 4000, "max-paths": 200000}, reach=["end"])],
 }
 
 CHECKS["C14"] = {
